@@ -89,12 +89,31 @@ def build386(ctx):
     return out
 
 
+def _run_model_par(model, cases, workers=4):
+    """The model driver is stateless between case lines: the lines are dealt round robin to `workers` driver
+    processes and the verdicts are put back in case order."""
+    from concurrent.futures import ThreadPoolExecutor
+    lines = cases.splitlines()
+    if len(lines) < 2000:
+        return common.run_model(model, cases)
+    parts = [lines[i::workers] for i in range(workers)]
+    with ThreadPoolExecutor(max_workers=workers) as ex:
+        outs = list(ex.map(lambda p: common.run_model(model, "\n".join(p) + "\n", timeout=3000), parts))
+    for p, o in zip(parts, outs):
+        if len(p) != len(o):
+            raise common.CheckError("model driver answered %d lines for %d cases" % (len(o), len(p)))
+    res = [None] * len(lines)
+    for w in range(workers):
+        res[w::workers] = outs[w]
+    return res
+
+
 def _batches386(ctx):
     """word/tail hand-overs of a 4-byte word loop: lim = len - len%4 - 4"""
     if ctx.tier == "thorough":
         b = [(20000, 5, "8,9,12,14,15,19")]
-        for lo in range(8, 33, 3):
-            b.append((0, 7, "%d-%d" % (lo, min(lo + 2, 32))))
+        for lo in range(8, 21, 3):   # three periods of the 4-byte word/tail hand-over
+            b.append((0, 7, "%d-%d" % (lo, min(lo + 2, 20))))
         return b
     return [(400, 5, "8,9,12,14,15")]
 
@@ -155,7 +174,7 @@ def run(ctx):
         if rc != 0:
             raise common.CheckError("harness corr failed: " + e[-1000:])
         lines = cases.splitlines()
-        res = common.run_model(model, cases)
+        res = _run_model_par(model, cases)
         mism = [l for l in res if not l.startswith("OK ")]
         if len(res) != len(lines):
             raise common.CheckError("model driver answered %d lines for %d cases" % (len(res), len(lines)))
@@ -211,7 +230,7 @@ def run(ctx):
     # the same search on the 32-bit compilation of the library (quick: units up to 128 KiB)
     sb.append((exe386, ctx.n(1500, 100000), 5, "8,9,12,14,15", ctx.n(1 << 17, 1 << 30)))
     if ctx.tier == "thorough":
-        sb.append((exe386, 0, 7, "8-32", 1 << 17))
+        sb.append((exe386, 0, 7, "8-20", 1 << 17))
     sev386 = 0
     for (xe, n, plen, bgs, bigmax) in sb:
         rc, so, e = sh2([xe, "search", "-seed", str(ctx.seed), "-n", str(n), "-plen", str(plen), "-bgs", bgs,
@@ -244,7 +263,7 @@ def run(ctx):
                        "mismatches": mism_tot, "first_case": first_mism[0], "model_says": first_mism[1]},
                       "model/implementation disagree on %d cases" % mism_tot, no_input=True)
     ctx.proof_violation_if_broken(pr, "c14 search: %d evaluations, no failing input" % sev)
-    ctx.cov["rule"] = ("every family below on the native build AND on a GOARCH=386 build (backgrounds 8..32 there); "
+    ctx.cov["rule"] = ("every family below on the native build AND on a GOARCH=386 build (backgrounds 8..20 there); "
                        "corr: hasZeroByte on random/structured words; scanner+conversions on every {00,01,xx} pattern "
                        "(length <= plen) at every offset of non-zero backgrounds of the listed lengths (all alignments "
                        "mod 8, all word/tail hand-overs), two patterns at once, random small-alphabet strings of length "
